@@ -282,6 +282,10 @@ func appendDefVar(b []byte, s *slip.Scope, vv *slip.VarVal) (out []byte) {
 }
 
 func appendSetq(b []byte, s *slip.Scope, vv *slip.VarVal) (out []byte) {
+	if slip.Unbound == vv.Value() {
+		// Declared but without a value, the defvar is all there is to write.
+		return b
+	}
 	defer func() {
 		if recover() != nil {
 			out = b
